@@ -117,7 +117,7 @@ def history(draw):
             ops.append([op, i, draw(st.integers(0, 50)), draw(small)])
         elif op == "roundtrip":
             ops.append([op, i, draw(st.sampled_from(["translate", "rotate", "scale"])), draw(vec3), [draw(angle), draw(angle), draw(angle)], draw(factor)])
-    return {"specs": specs, "ops": ops}
+    return {"specs": specs, "ops": ops, "scale": draw(st.sampled_from([1.0, 1.0, 1.0, 1e-6, 1e-3, 1e3, 1e6]))}
 
 
 # ------------------------------------------------------------------ model
@@ -168,6 +168,11 @@ def euler_matrix(a):
 
 
 def fn(case, ctx):
+    # uniform scale of every generated coordinate (the model's tolerances are relative to the data)
+    sc = case.get("scale", 1.0)
+    if sc != 1.0:
+        case = dict(case, specs=[dict(sp, V=[[x * sc for x in v] for v in sp["V"]]) for sp in case["specs"]])
+        ctx.label("scale=%g" % sc)
     import mouette as M
     from mouette.mesh.mesh_data import RawMeshData
     from mouette.geometry import transform as T
@@ -438,16 +443,22 @@ def fn(case, ctx):
                     arg = Rm.copy()
                 else:
                     arg = Rotation.from_matrix(Rm)
+                o_before = None if orig is None else np.array(orig, dtype=float).copy()
                 ok, r = ctx.call("op:rotate", T.rotate, m0, arg, orig)
                 if not ok: continue
+                if orig is not None:
+                    ctx.check(np.array_equal(np.array(orig, dtype=float), o_before), "arg:changed", f"{where}: rotate changed its origin argument")
                 if op[2] == "matrix":
                     ctx.check(np.array_equal(arg, Rm), "arg:changed", f"{where}: rotate changed its matrix argument")
                 o = np.zeros(3) if op[4] is None else np.array(op[4], dtype=float)
                 mdl0.V = o + (mdl0.V - o) @ Rm.T
             elif kind == "scale":
                 orig = None if op[3] is None else Vec(*op[3])
+                o_before = None if orig is None else np.array(orig, dtype=float).copy()
                 ok, r = ctx.call("op:scale", T.scale, m0, op[2], orig)
                 if not ok: continue
+                if orig is not None:
+                    ctx.check(np.array_equal(np.array(orig, dtype=float), o_before), "arg:changed", f"{where}: scale changed its origin argument")
                 o = np.zeros(3) if op[3] is None else np.array(op[3], dtype=float)
                 mdl0.V = o + op[2] * (mdl0.V - o)
             elif kind == "scale_xyz":
